@@ -16,7 +16,11 @@
    * the C string generator: the *generated* `BitVec 64` body of Gosper's hack = the `Nat` model, and
      the generator loop lists the k-subsets in increasing numeric order, for every
      norb ≤ 63 (the C cut-over) and every nele                                    : C05_c_gosper_step, C05_c_generator
-  Carried by the correspondence only (still open): k-fold cross-sector maps, de-excitation row fill count.
+   * k-fold annihilation maps between sectors (`make_mapping_each_set`): for every mask and every admitted
+     source the entry is the descending ladder product over the mask's orbitals — same target, parity of the
+     count = its sign; a source is admitted iff all mask orbitals are occupied     : C05_kfold_map, C05_kfold_admit
+  Carried by the correspondence only (still open): de-excitation row fill count, the linking of the sector
+  graphs in `FciGraphSet` (which pairs of sectors are connected).
 -/
 import FqeVerif.Lemmas.BitsC
 import FqeVerif.Lemmas.Excite
@@ -24,6 +28,7 @@ import FqeVerif.Lemmas.MapEach
 import FqeVerif.Lemmas.Subsets
 import FqeVerif.Lemmas.Address
 import FqeVerif.Lemmas.Gosper
+import FqeVerif.Lemmas.MapSet
 namespace C05
 open Model Fock
 
@@ -220,5 +225,23 @@ theorem C05_c_generator (norb nele : Nat) (h : norb ≤ 63) :
   exact ⟨rfl, mem_subsetsAsc norb nele, subsetsAsc_nodup norb nele⟩
 
 example : stringsC 5 2 = [3, 5, 6, 9, 10, 12, 17, 18, 20, 24] := by decide
+
+/-- k-fold annihilation maps (`make_mapping_each_set`, both builders share this loop): for every orbital count,
+    every non-empty mask below `2^norb` and every source string that passes the admission test, the table entry
+    `(source, target, count)` is the ladder product `a_{o_0} a_{o_1} ⋯ a_{o_{k-1}}` over the mask's orbitals
+    `o_0 < o_1 < ⋯` (rightmost = highest acts first) in the kernels' "occupied above" sign convention:
+    same target string, and the parity of `count` is the fermionic sign -/
+theorem C05_kfold_map (norb s mask : Nat) (hs : s < 2 ^ norb) (hm : mask < 2 ^ norb) (hm0 : mask ≠ 0)
+    (hadm : ((s &&& mask) ^^^ mask) = 0) :
+    descApply norb ((integerIndex mask).map (fun o => (o, false))) s =
+      some (decide ((mapSetEntry (integerIndex mask) s).2.2 % 2 = 1), (mapSetEntry (integerIndex mask) s).2.1) :=
+  mapSetEntry_mask_spec norb s mask hs hm hm0 hadm
+
+/-- a source has an entry exactly when every orbital of the mask is occupied in it (no entry missing, none spurious) -/
+theorem C05_kfold_admit (s mask : Nat) :
+    ((s &&& mask) ^^^ mask) = 0 ↔ ∀ i, mask.testBit i = true → s.testBit i = true :=
+  admit_iff s mask
+
+example : mapSetEntry [0, 2, 3] 0b1101 = (0b1101, 0, 0) ∧ mapSetEntry [0, 2] 0b10111 = (0b10111, 0b10010, 3) := by decide
 
 end C05
